@@ -281,10 +281,10 @@ SEEDED["C15"] = [
     (CEN, "return numpy.array([x_centroid, y_centroid])", "return numpy.array([y_centroid, x_centroid])", "H3"),
     (CEN, "pxlValue = numpy.sort(img.flatten())[-nPxls]", "pxlValue = numpy.sort(img.flatten())[nPxls]", "H4"),
     (CEN, "reference_image = numpy.conjugate(numpy.fft.fft2(y,", "reference_image = (numpy.fft.fft2(y,", "H5"),
-    (CEN, "cy -= float(ny) / 2. * (float(padding) - 1)", "cy -= float(ny) / 2. * (float(padding))", "H5"),
+    (CEN, "cy -= (ny * padding) // 2 - ny // 2", "cy -= float(ny) / 2. * (float(padding))", "H5"),
     (CEN, "xCent = xSum[...,1] - xSum[...,0]", "xCent = xSum[...,1] + xSum[...,0]", "H6"),
     (CEN, "thres = numpy.maximum(threshold*img.max(-1).max(-1)", "thres = numpy.maximum(threshold*img.max()", "H2"),
-    (CEN, "cx -= float(nx) / 2. * (float(padding) - 1)", "cx -= float(ny) / 2. * (float(padding) - 1)", "H5"),
+    (CEN, "cx -= (nx * padding) // 2 - nx // 2", "cx -= float(ny) / 2. * (float(padding) - 1)", "H5"),
     (CEN, "        img = (img.T - pxlValues).T", "        img = (img.T - pxlValues.max()).T", "H"),
 ]
 BENIGN["C15"] = []
@@ -359,9 +359,9 @@ SEEDED["C19"] = [
     (SC, "numpy.mean((phase[0:-i, :] - phase[i:, :])**2)", "numpy.mean((phase[0:-i, :] - phase[i:, :])**1)", "T"),
     (SC, "numpy.mean((phase[0:-i, :] - phase[i:, :])**2)", "numpy.mean((phase[:, 0:-i] - phase[:, i:])**2)", "T1"),
     (SC, "sf_x[int(i / step)] =", "sf_x[int(i / step) - 1] =", "T1"),
-    (TPS, "axis=-2)[..., :int(n_frames/2), :])**2", "axis=-1)[..., :int(n_frames/2), :])**2", "T4"),
+    (TPS, "axis=-2)[..., :(n_frames+1)//2, :])**2", "axis=-1)[..., :(n_frames+1)//2, :])**2", "T4"),
     (TPS, "numpy.fft.fftfreq(n_frames, 1./frame_rate)", "numpy.fft.fftfreq(n_frames, frame_rate)", "T5"),
-    (TPS, "[:int(n_frames/2)]", "[:int(n_frames/2)+1]", "T5"),
+    (TPS, "[:(n_frames+1)//2]", "[:int(n_frames/2)+1]", "T5"),
     (TPS, "tps_err = tps.std(-1)/numpy.sqrt(tps.shape[-1])", "tps_err = tps.std(-1)/numpy.sqrt(tps.shape[-2])", "T4"),
     (TPS, "    # Find mean across all sub-aps\n    mean_tps", "    # Find mean across all sub-aps\n    tps = (abs(tps)**2)\n    mean_tps", "T"),
 ]
@@ -389,7 +389,7 @@ SEEDED["C20"] += [
     (FT, "                    numpy.fft.ifftshift(data, axes=(-1,-2))\n                    ), axes=(-1,-2)", "                    numpy.fft.ifftshift(data)\n                    ), axes=(-1,-2)", "P3"),
     (FT, "            axes=(-1)) * data.shape[-1] * delta_f", "            axes=(-1)) * len(data) * delta_f", "P3"),
     (TPS, "tps.mean(-1)", "tps.mean(1)", "P3"),
-    (TPS, "[..., :int(n_frames/2), :]", "[:int(n_frames/2)]", "P3"),
+    (TPS, "[..., :(n_frames+1)//2, :]", "[:(n_frames+1)//2]", "P3"),
     (TPS, "numpy.sqrt(tps.shape[-1])", "numpy.sqrt(tps.shape[1])", "P3"),
     (ATM, "def coherenceTime(cn2, v, lamda=500.E-9, axis=-1)", "def coherenceTime(cn2, v, lamda=500.E-9, axis=0)", "P3"),
     (ATM, "Jh = (cn2*(h**(5./3.))).sum(axis)", "Jh = (cn2*(h**(5./3.))).sum()", "P3"),
@@ -708,4 +708,26 @@ SEEDED["C07"] += [
 ]
 SEEDED["C20"] += [
     (PC, "def _convert_splits_to_groups", "def _shuffled(x):\n    numpy.random.shuffle(x)\n    return x\n\n\ndef _convert_splits_to_groups", "P"),
+]
+
+# ---- the second batch of audit fixes (6cad877 .. 809a3ef), each reverted
+TPS = "aotools/turbulence/temporal_ps.py"
+SEEDED["C19"] += [
+    (SC, "        nbOfPoint = phase.shape[0] / 4\n", "        nbOfPoint = phase.shape[1] / 4\n", "T2.lag-range"),
+    (SC, "    xm = int(numpy.min([nbOfPoint, phase.shape[0] / step - 1]))", "    xm = int(numpy.min([nbOfPoint, phase.shape[1] / step - 1]))", "T2.lag-range"),
+    (TPS, "[..., :(n_frames+1)//2, :]", "[..., :int(n_frames/2), :]", "T4"),
+    (TPS, "[:(n_frames+1)//2]\n", "[:int(n_frames/2)]\n", "T5"),
+    (TPS, "[..., :(n_frames+1)//2, :]", "[..., :n_frames//2 + 1, :]", "T"),
+]
+SEEDED["C16"] += [
+    (INT, "        return interpObj(coordsX,coordsY)\n        \n", "        return interpObj(coordsY,coordsX)\n        \n", "B3.zoom-grid"),
+    (INT, "    except (IndexError, TypeError):\n        xSize = ySize = newSize\n\n    coordsX = numpy.linspace(0, array.shape[0]-1, xSize)\n    coordsY = numpy.linspace(0, array.shape[1]-1, ySize)\n\n    #If array is complex must do 2 interpolations\n    if array.dtype==numpy.complex64 or array.dtype==numpy.complex128:\n        realInterpObj = RectBivariateSpline(   \n",
+     "    except IndexError:\n        xSize = ySize = newSize\n\n    coordsX = numpy.linspace(0, array.shape[0]-1, xSize)\n    coordsY = numpy.linspace(0, array.shape[1]-1, ySize)\n\n    #If array is complex must do 2 interpolations\n    if array.dtype==numpy.complex64 or array.dtype==numpy.complex128:\n        realInterpObj = RectBivariateSpline(   \n", "B3.integer-size"),
+]
+SEEDED["C15"] += [
+    (CEN, "        cy -= (ny * padding) // 2 - ny // 2\n", "        cy -= float(ny) / 2. * (float(padding) - 1)\n", "H5.padding-offset"),
+    (CEN, "        cx -= (nx * padding) // 2 - nx // 2\n", "        cx -= (nx * padding) // 2\n", "H5.padding-offset"),
+]
+BENIGN["C15"] += [
+    (CEN, "        cy -= (ny * padding) // 2 - ny // 2\n", "        y_offset = (ny * padding) // 2 - ny // 2\n        cy -= y_offset\n"),
 ]
